@@ -176,3 +176,405 @@ Proof.
   all: try (repeat f_equal; lia).
 Qed.
 
+(* ---------------------------------------------------------------- model = policy *)
+Lemma abs_state_eq K iv last0 fails h :
+  abs_state K iv last0 fails h =
+  st_of K (pctx K iv last0 h) (accs_of K iv fails (cwindow K iv last0 h)) (gauges_of gauges0 h).
+Proof. reflexivity. Qed.
+
+Lemma step_abs K iv last0 fails h o :
+  step K iv fails (abs_state K iv last0 fails h) o =
+  (abs_state K iv last0 fails (h ++ [o]), sp_out K iv last0 fails h o).
+Proof.
+  rewrite !abs_state_eq, step_acc. unfold sp_out.
+  rewrite pctx_snoc, cwindow_snoc, gauges_of_snoc.
+  rewrite (point_of_accs K iv fails), accs_of_snoc.
+  f_equal.
+  - destruct (is_reset o); [rewrite accs_of_nil | rewrite accs_of_snoc]; reflexivity.
+  - f_equal. destruct o; try reflexivity.
+    unfold errs_of at 1. change (flat_map _ ?w) with (a_el (accs_of K iv fails w)).
+    rewrite accs_of_snoc. reflexivity.
+Qed.
+
+Lemma init_abs K iv last0 fails : init K last0 = abs_state K iv last0 fails [].
+Proof. destruct K; reflexivity. Qed.
+
+Lemma run_from_abs K iv last0 fails rest : forall pre,
+  run_from K iv fails (abs_state K iv last0 fails pre) rest =
+  (abs_state K iv last0 fails (pre ++ rest), spec_outs_from K iv last0 fails pre rest).
+Proof.
+  induction rest as [|o rest IH]; intros pre.
+  - cbn [run_from spec_outs_from]. rewrite app_nil_r. reflexivity.
+  - cbn [run_from spec_outs_from]. rewrite step_abs. cbn [fst snd]. rewrite IH.
+    cbn [fst snd]. rewrite <- app_assoc. reflexivity.
+Qed.
+
+(* the reference model and the policy agree on every history: final state and every
+   observable output *)
+Lemma run_spec K iv last0 fails h :
+  run K iv last0 fails h = (abs_state K iv last0 fails h, spec_outs K iv last0 fails h).
+Proof. unfold run, spec_outs. rewrite (init_abs K iv last0 fails). apply (run_from_abs K iv last0 fails h []). Qed.
+
+(* ---------------------------------------------------------------- outputs by position *)
+Lemma spec_outs_from_length K iv last0 fails rest : forall pre,
+  length (spec_outs_from K iv last0 fails pre rest) = length rest.
+Proof. induction rest as [|o rest IH]; intros pre; cbn [spec_outs_from length]; [|rewrite IH]; reflexivity. Qed.
+
+Lemma spec_outs_from_app K iv last0 fails a : forall pre b,
+  spec_outs_from K iv last0 fails pre (a ++ b) =
+  spec_outs_from K iv last0 fails pre a ++ spec_outs_from K iv last0 fails (pre ++ a) b.
+Proof.
+  induction a as [|o a IH]; intros pre b.
+  - cbn [app spec_outs_from]. rewrite app_nil_r. reflexivity.
+  - cbn [app spec_outs_from]. rewrite IH, <- app_assoc. reflexivity.
+Qed.
+
+Lemma run_out_at K iv last0 fails pre o post :
+  nth (length pre) (snd (run K iv last0 fails (pre ++ o :: post))) no_out = sp_out K iv last0 fails pre o.
+Proof.
+  rewrite run_spec. cbn [snd]. unfold spec_outs. rewrite spec_outs_from_app. cbn [app spec_outs_from].
+  rewrite app_nth2; rewrite spec_outs_from_length; [|lia].
+  rewrite Nat.sub_diag. reflexivity.
+Qed.
+
+Lemma run_length K iv last0 fails h : length (snd (run K iv last0 fails h)) = length h.
+Proof. rewrite run_spec. apply spec_outs_from_length. Qed.
+
+(* ---------------------------------------------------------------- windows without contexts *)
+Lemma wmap_since K iv last0 (f : op -> list Z) h :
+  wmap f (cwindow K iv last0 h) = flat_map f (since_reset h).
+Proof.
+  rewrite <- (cwindow_since_reset K iv last0). unfold wmap.
+  induction (cwindow K iv last0 h) as [|x l IH]; [reflexivity|].
+  cbn [flat_map map]. rewrite IH. reflexivity.
+Qed.
+
+Lemma wmap_snoc (f : op -> list Z) w c o : wmap f (w ++ [(c, o)]) = wmap f w ++ f o.
+Proof. unfold wmap. rewrite flat_map_app. cbn [flat_map snd]. rewrite app_nil_r. reflexivity. Qed.
+
+Lemma wmapc_snoc (f : ctx -> op -> list Z) w c o : wmapc f (w ++ [(c, o)]) = wmapc f w ++ f c o.
+Proof. unfold wmapc. rewrite flat_map_app. cbn [flat_map fst snd]. rewrite app_nil_r. reflexivity. Qed.
+
+(* for the summing recorders the duration folds are plain sums *)
+Lemma dur_fold_sum K w : K <> KRaw -> fold_left (dur_upd K) w 0 = lsum (wmap att_dur w).
+Proof.
+  intros HK. induction w as [|[c o] w IH] using rev_ind; [reflexivity|].
+  rewrite fold_left_snoc, wmap_snoc, lsum_app, IH. unfold dur_upd. cbn [snd].
+  destruct o; cbn [att_dur lsum fold_right]; try lia.
+  destruct K; try lia. congruence.
+Qed.
+
+Lemma total_fold_sum K w : K <> KRaw -> fold_left (total_upd K) w 0 = lsum (wmapc (att_total K) w).
+Proof.
+  intros HK. induction w as [|[c o] w IH] using rev_ind; [reflexivity|].
+  rewrite fold_left_snoc, wmapc_snoc, lsum_app, IH. unfold total_upd, att_total. cbn [fst snd].
+  destruct o; cbn [lsum fold_right]; try lia.
+  destruct K; try lia. congruence.
+Qed.
+
+(* ---------------------------------------------------------------- (1) counters, (2) gauges, (3) durations *)
+Definition cur_point K iv last0 fails h : point := s_pt (fst (run K iv last0 fails h)).
+
+Lemma cur_point_eq K iv last0 fails h :
+  cur_point K iv last0 fails h =
+  point_of K (c_ts (pctx K iv last0 h)) (cwindow K iv last0 h) (gauges_of gauges0 h).
+Proof. unfold cur_point. rewrite run_spec. reflexivity. Qed.
+
+Lemma counters_perf : forall K iv last0 fails h, is_hist K = false ->
+  let p := cur_point K iv last0 fails h in
+  p_n p = wrap64 (lsum (flat_map (att_n K) (since_reset h))) /\
+  p_ops p = wrap64 (lsum (flat_map att_ops (since_reset h))) /\
+  p_size p = wrap64 (lsum (flat_map att_size (since_reset h))) /\
+  p_errs p = wrap64 (lsum (flat_map att_errs (since_reset h))).
+Proof.
+  intros K iv last0 fails h HK p. subst p. rewrite cur_point_eq. unfold point_of. rewrite HK.
+  cbn [p_n p_ops p_size p_errs]. rewrite !(wmap_since K iv last0). repeat split; reflexivity.
+Qed.
+
+Lemma counters_hist : forall K iv last0 fails h, is_hist K = true ->
+  let p := cur_point K iv last0 fails h in
+  h_n (p_h p) = filter accepts_counter (flat_map (att_n K) (since_reset h)) /\
+  h_ops (p_h p) = filter accepts_counter (flat_map att_ops (since_reset h)) /\
+  h_size (p_h p) = filter accepts_counter (flat_map att_size (since_reset h)) /\
+  h_errs (p_h p) = filter accepts_counter (flat_map att_errs (since_reset h)) /\
+  h_dur (p_h p) = filter accepts_timer (flat_map att_dur (since_reset h)).
+Proof.
+  intros K iv last0 fails h HK p. subst p. rewrite cur_point_eq. unfold point_of. rewrite HK.
+  cbn [p_h h_n h_ops h_size h_errs h_dur]. rewrite !(wmap_since K iv last0). repeat split; reflexivity.
+Qed.
+
+Lemma gauges_last_set : forall K iv last0 fails h,
+  p_g (cur_point K iv last0 fails h) = gauges_of gauges0 h.
+Proof. intros. rewrite cur_point_eq. unfold point_of. destruct (is_hist K); reflexivity. Qed.
+
+Lemma durations_summing : forall K iv last0 fails h, is_hist K = false -> K <> KRaw ->
+  let p := cur_point K iv last0 fails h in
+  p_dur p = wrap64 (lsum (flat_map att_dur (since_reset h))) /\
+  p_total p = wrap64 (lsum (wmapc (att_total K) (cwindow K iv last0 h))).
+Proof.
+  intros K iv last0 fails h HK HR p. subst p. rewrite cur_point_eq. unfold point_of. rewrite HK.
+  cbn [p_dur p_total]. rewrite dur_fold_sum, total_fold_sum by assumption.
+  rewrite (wmap_since K iv last0). split; reflexivity.
+Qed.
+
+Lemma durations_raw : forall iv last0 fails h,
+  let p := cur_point KRaw iv last0 fails h in
+  p_dur p = wrap64 (fold_left (dur_upd KRaw) (cwindow KRaw iv last0 h) 0) /\
+  p_total p = wrap64 (fold_left (total_upd KRaw) (cwindow KRaw iv last0 h) 0).
+Proof. intros. subst p. rewrite cur_point_eq. split; reflexivity. Qed.
+
+Lemma total_hist : forall K iv last0 fails h, is_hist K = true ->
+  h_total (p_h (cur_point K iv last0 fails h)) =
+  filter accepts_timer (wmapc (att_total K) (cwindow K iv last0 h)).
+Proof. intros K iv last0 fails h HK. rewrite cur_point_eq. unfold point_of. rewrite HK. reflexivity. Qed.
+
+(* every elapsed part is (end reading) - (reading of an earlier BeginIteration) *)
+Lemma started_is_begin K iv last0 h :
+  c_started (pctx K iv last0 h) = 0 \/ In (BeginIteration (c_started (pctx K iv last0 h))) h.
+Proof.
+  induction h as [|o h IH] using rev_ind; [left; destruct K; reflexivity|].
+  rewrite pctx_snoc.
+  assert (HI : forall x, In x h -> In x (h ++ [o])) by (intros; apply in_or_app; left; assumption).
+  destruct o; unfold ctx_step; cbn [c_started];
+    try (destruct IH as [IH|IH]; [left; exact IH | right; apply HI; exact IH]);
+    try (left; reflexivity).
+  - right. apply in_or_app. right. left. reflexivity.
+  - destruct K; cbn [c_started]; try (left; reflexivity);
+      try (destruct (gate_open now (c_last (pctx _ iv last0 h)) iv); cbn [c_started]; left; reflexivity).
+    destruct IH as [IH|IH]; [left; exact IH | right; apply HI; exact IH].
+  - destruct K; cbn [c_started]; (destruct IH as [IH|IH]; [left; exact IH | right; apply HI; exact IH]).
+Qed.
+
+Definition clock_of (o : op) : option Z :=
+  match o with
+  | BeginIteration now | EndIteration _ now | EndTest now | Tick now => Some now
+  | _ => None
+  end.
+
+Lemma elapsed_parts : forall K iv last0 pre o e,
+  In e (elapsed K (pctx K iv last0 pre) o) ->
+  exists b now, In (BeginIteration b) pre /\ clock_of o = Some now /\ e = now - b.
+Proof.
+  intros K iv last0 pre o e HIn.
+  destruct (started_is_begin K iv last0 pre) as [H0|HB].
+  - unfold elapsed in HIn. rewrite H0 in HIn. destruct o; cbn in HIn; try contradiction.
+    destruct K; contradiction.
+  - unfold elapsed in HIn. destruct o; try contradiction.
+    + destruct (c_started (pctx K iv last0 pre) =? 0); [contradiction|].
+      destruct HIn as [HIn|[]]. eexists _, now. repeat split; [exact HB | symmetry; exact HIn].
+    + destruct K; try contradiction.
+      destruct (c_started (pctx KHistInterval iv last0 pre) =? 0); [contradiction|].
+      destruct HIn as [HIn|[]]. eexists _, now. repeat split; [exact HB | symmetry; exact HIn].
+Qed.
+
+Lemma elapsed_bounded : forall K iv last0 pre o e lo hi,
+  In e (elapsed K (pctx K iv last0 pre) o) ->
+  (forall b, In (BeginIteration b) pre -> lo <= b) ->
+  (forall now, clock_of o = Some now -> now <= hi /\ forall b, In (BeginIteration b) pre -> b <= now) ->
+  0 <= e <= hi - lo.
+Proof.
+  intros K iv last0 pre o e lo hi HIn Hlo Hhi.
+  destruct (elapsed_parts _ _ _ _ _ _ HIn) as (b & now & HB & HC & ->).
+  destruct (Hhi now HC) as [H1 H2]. specialize (Hlo b HB). specialize (H2 b HB). lia.
+Qed.
+
+(* ---------------------------------------------------------------- (4) persistence moments *)
+Lemma positions_spec K iv last0 fails rest : forall pre i,
+  positions_from (fun x => match o_persisted x with [] => false | _ => true end) i
+                 (spec_outs_from K iv last0 fails pre rest) =
+  policy_positions_from K iv (pctx K iv last0 pre) i rest.
+Proof.
+  induction rest as [|o rest IH]; intros pre i; [reflexivity|].
+  cbn [spec_outs_from positions_from policy_positions_from].
+  rewrite IH, pctx_snoc. unfold sp_out. cbn [o_persisted].
+  destruct (persists K iv (pctx K iv last0 pre) o); reflexivity.
+Qed.
+
+Lemma persistence_moments : forall K iv last0 fails h,
+  persisted_positions (snd (run K iv last0 fails h)) = policy_positions K iv last0 h.
+Proof. intros. rewrite run_spec. apply (positions_spec K iv last0 fails h [] 0%nat). Qed.
+
+Lemma at_most_one_point : forall K iv last0 fails pre o post,
+  (length (o_persisted (nth (length pre) (snd (run K iv last0 fails (pre ++ o :: post))) no_out)) <= 1)%nat.
+Proof.
+  intros. rewrite run_out_at. unfold sp_out. cbn [o_persisted].
+  destruct (persists _ _ _ _); cbn [length]; lia.
+Qed.
+
+(* the number of collector.Add calls is the number of persisted points *)
+Lemma adds_count_from K iv rest : forall c i,
+  c_adds (fold_left (ctx_step K iv) rest c) =
+  c_adds c + Z.of_nat (length (policy_positions_from K iv c i rest)).
+Proof.
+  induction rest as [|o rest IH]; intros c i; [cbn; lia|].
+  cbn [fold_left policy_positions_from]. rewrite (IH _ (S i)), app_length.
+  assert (H : c_adds (ctx_step K iv c o) = if persists K iv c o then c_adds c + 1 else c_adds c)
+    by (unfold ctx_step; destruct o; destruct K; cbn [c_adds];
+        repeat match goal with |- context[if ?b then _ else _] => destruct b end; reflexivity).
+  rewrite H. destruct (persists K iv c o); cbn [length]; lia.
+Qed.
+
+Lemma adds_count : forall K iv last0 fails h,
+  s_adds (fst (run K iv last0 fails h)) = Z.of_nat (length (persisted_positions (snd (run K iv last0 fails h)))).
+Proof.
+  intros. rewrite persistence_moments, run_spec. cbn [fst]. unfold abs_state. cbn [s_adds].
+  unfold pctx, policy_positions. rewrite (adds_count_from K iv h _ 0%nat). destruct K; reflexivity.
+Qed.
+
+(* ---------------------------------------------------------------- the persisted points *)
+Lemma persisted_point : forall K iv last0 fails pre o post p,
+  In p (o_persisted (nth (length pre) (snd (run K iv last0 fails (pre ++ o :: post))) no_out)) ->
+  persists K iv (pctx K iv last0 pre) o = true /\
+  p = point_of K (persist_ts K (pctx K iv last0 pre) o)
+               (cwindow K iv last0 pre ++ [(pctx K iv last0 pre, o)]) (gauges_of gauges0 (pre ++ [o])).
+Proof.
+  intros K iv last0 fails pre o post p. rewrite run_out_at. unfold sp_out. cbn [o_persisted].
+  destruct (persists _ _ _ _); [|intros []]. intros [H|[]]. split; [reflexivity | symmetry; exact H].
+Qed.
+
+Lemma persisted_counters_perf : forall K iv last0 fails pre o post p, is_hist K = false ->
+  In p (o_persisted (nth (length pre) (snd (run K iv last0 fails (pre ++ o :: post))) no_out)) ->
+  p_n p = wrap64 (lsum (flat_map (att_n K) (since_reset pre ++ [o]))) /\
+  p_ops p = wrap64 (lsum (flat_map att_ops (since_reset pre ++ [o]))) /\
+  p_size p = wrap64 (lsum (flat_map att_size (since_reset pre ++ [o]))) /\
+  p_errs p = wrap64 (lsum (flat_map att_errs (since_reset pre ++ [o]))) /\
+  p_g p = gauges_of gauges0 (pre ++ [o]).
+Proof.
+  intros K iv last0 fails pre o post p HK HIn.
+  destruct (persisted_point _ _ _ _ _ _ _ _ HIn) as [_ ->]. unfold point_of. rewrite HK.
+  cbn [p_n p_ops p_size p_errs p_g]. rewrite !wmap_snoc, !(wmap_since K iv last0), !flat_map_app.
+  cbn [flat_map]. rewrite !app_nil_r. repeat split; reflexivity.
+Qed.
+
+Lemma persisted_counters_hist : forall K iv last0 fails pre o post p, is_hist K = true ->
+  In p (o_persisted (nth (length pre) (snd (run K iv last0 fails (pre ++ o :: post))) no_out)) ->
+  h_n (p_h p) = filter accepts_counter (flat_map (att_n K) (since_reset pre ++ [o])) /\
+  h_ops (p_h p) = filter accepts_counter (flat_map att_ops (since_reset pre ++ [o])) /\
+  h_size (p_h p) = filter accepts_counter (flat_map att_size (since_reset pre ++ [o])) /\
+  h_errs (p_h p) = filter accepts_counter (flat_map att_errs (since_reset pre ++ [o])) /\
+  h_dur (p_h p) = filter accepts_timer (flat_map att_dur (since_reset pre ++ [o])) /\
+  p_g p = gauges_of gauges0 (pre ++ [o]).
+Proof.
+  intros K iv last0 fails pre o post p HK HIn.
+  destruct (persisted_point _ _ _ _ _ _ _ _ HIn) as [_ ->]. unfold point_of. rewrite HK.
+  cbn [p_h h_n h_ops h_size h_errs h_dur p_g]. rewrite !wmap_snoc, !(wmap_since K iv last0), !flat_map_app.
+  cbn [flat_map]. rewrite !app_nil_r. repeat split; reflexivity.
+Qed.
+
+(* ---------------------------------------------------------------- (5) EndTest *)
+Lemma endtest_returns : forall K iv last0 fails pre now post,
+  o_ret (nth (length pre) (snd (run K iv last0 fails (pre ++ EndTest now :: post))) no_out) =
+  Some (errs_of K iv fails (cwindow K iv last0 pre ++ [(pctx K iv last0 pre, EndTest now)])).
+Proof. intros. rewrite run_out_at. reflexivity. Qed.
+
+Lemma only_endtest_returns : forall K iv last0 fails pre o post,
+  (forall now, o <> EndTest now) ->
+  o_ret (nth (length pre) (snd (run K iv last0 fails (pre ++ o :: post))) no_out) = None.
+Proof. intros K iv last0 fails pre o post H. rewrite run_out_at. destruct o; try reflexivity. exfalso. eapply H. reflexivity. Qed.
+
+(* ---------------------------------------------------------------- (6) after EndTest / Reset *)
+Lemma point_of_nil K g : point_of K 0 [] g = fresh_point g.
+Proof. destruct K; reflexivity. Qed.
+
+Lemma last_zero_unless_grouped K iv last0 h : K <> KGrouped -> K <> KHistGrouped -> c_last (pctx K iv last0 h) = 0.
+Proof.
+  intros H1 H2. induction h as [|o h IH] using rev_ind; [destruct K; try reflexivity; congruence|].
+  rewrite pctx_snoc. set (c := pctx K iv last0 h) in *. clearbody c.
+  destruct K; try congruence; destruct o; unfold ctx_step; cbn [c_last grouped]; first [exact IH | reflexivity].
+Qed.
+
+Lemma after_reset_fresh : forall K iv last0 fails h r, is_reset r = true ->
+  let st := fst (run K iv last0 fails (h ++ [r])) in
+  st = fresh_state (gauges_of gauges0 h) 0 (s_adds st).
+Proof.
+  intros K iv last0 fails h r Hr st. subst st. rewrite run_spec. cbn [fst].
+  unfold abs_state. rewrite pctx_snoc, cwindow_snoc, gauges_of_snoc, Hr.
+  assert (Hg : g_step (gauges_of gauges0 h) r = gauges_of gauges0 h) by (destruct r; try discriminate; reflexivity).
+  rewrite Hg. unfold fresh_state. cbn [s_adds].
+  assert (Hc : exists a, ctx_step K iv (pctx K iv last0 h) r =
+                         mkC 0 0 (if grouped K then 0 else c_last (pctx K iv last0 h)) a)
+    by (destruct r; try discriminate; eexists; reflexivity).
+  destruct Hc as [a Hc]. rewrite Hc. cbn [c_ts c_started c_last c_adds]. rewrite point_of_nil.
+  f_equal. destruct K; cbn [grouped]; try reflexivity; apply last_zero_unless_grouped; congruence.
+Qed.
+
+Lemma continues_like_fresh : forall K iv last0 fails h1 r h2, is_reset r = true ->
+  let st := fst (run K iv last0 fails (h1 ++ [r])) in
+  snd (run K iv last0 fails (h1 ++ r :: h2)) =
+  snd (run K iv last0 fails (h1 ++ [r])) ++
+  snd (run_from K iv fails (fresh_state (gauges_of gauges0 h1) 0 (s_adds st)) h2).
+Proof.
+  intros K iv last0 fails h1 r h2 Hr st. subst st.
+  rewrite <- (after_reset_fresh K iv last0 fails h1 r Hr).
+  replace (h1 ++ r :: h2) with ((h1 ++ [r]) ++ h2) by (rewrite <- app_assoc; reflexivity).
+  unfold run. rewrite run_from_app. reflexivity.
+Qed.
+
+(* ---------------------------------------------------------------- wrappers *)
+Definition add_timers (a b : timers) : timers :=
+  mkT (t_reset a + t_reset b) (t_start a + t_start b) (t_stop a + t_stop b).
+
+Lemma wrun_from_erase W K iv fails h : forall st tm, wellformed W h = true ->
+  fst (fst (wrun_from W K iv fails (st, tm) h)) = fst (run_from K iv fails st (erase W h)) /\
+  snd (wrun_from W K iv fails (st, tm) h) = snd (run_from K iv fails st (erase W h)).
+Proof.
+  induction h as [|w h IH]; intros st tm Hwf; [split; reflexivity|].
+  assert (Hwf' : wellformed W h = true)
+    by (destruct W; [ | | reflexivity]; cbn [wellformed forallb] in *; apply andb_true_iff in Hwf; apply Hwf).
+  assert (Hstep : exists o tm', erase_op W w = [o] /\
+             wstep W K iv fails (st, tm) w = ((fst (step K iv fails st o), tm'), snd (step K iv fails st o))).
+  { destruct w as [o|now|d now].
+    - exists o. destruct W; try (eexists; split; reflexivity).
+      destruct o; eexists; split; reflexivity.
+    - destruct W; try (cbn [wellformed forallb is_plain andb] in Hwf; discriminate).
+      eexists _, _. split; reflexivity.
+    - destruct W; try (cbn [wellformed forallb is_plain andb] in Hwf; discriminate).
+      eexists _, _. split; reflexivity. }
+  destruct Hstep as (o & tm' & He & Hs).
+  cbn [wrun_from]. rewrite Hs. cbn [fst snd]. unfold erase. cbn [flat_map]. fold (erase W h).
+  rewrite He. cbn [app run_from fst snd].
+  destruct (IH (fst (step K iv fails st o)) tm' Hwf') as [E1 E2]. rewrite E1, E2. split; reflexivity.
+Qed.
+
+Lemma add_timers_assoc a b c : add_timers (add_timers a b) c = add_timers a (add_timers b c).
+Proof. destruct a, b, c. unfold add_timers. cbn. f_equal; lia. Qed.
+
+Lemma count_w_cons f w h : count_w f (w :: h) = count_w f [w] + count_w f h.
+Proof. unfold count_w. cbn [filter]. destruct (f w); cbn [length]; lia. Qed.
+
+Lemma spec_timers_cons W w h : spec_timers W (w :: h) = add_timers (spec_timers W [w]) (spec_timers W h).
+Proof.
+  destruct W; unfold spec_timers, add_timers; try reflexivity.
+  cbn [t_reset t_start t_stop]. rewrite 3 (count_w_cons _ w h). reflexivity.
+Qed.
+
+Lemma wstep_timers W K iv fails st tm w :
+  snd (fst (wstep W K iv fails (st, tm) w)) = add_timers tm (spec_timers W [w]).
+Proof.
+  destruct tm as [a b c].
+  destruct W; destruct w as [o|now|d now]; try destruct o;
+    unfold add_timers, spec_timers, count_w; cbn; f_equal; lia.
+Qed.
+
+Lemma wrun_from_timers W K iv fails h : forall st tm,
+  snd (fst (wrun_from W K iv fails (st, tm) h)) = add_timers tm (spec_timers W h).
+Proof.
+  induction h as [|w h IH]; intros st tm.
+  - cbn [wrun_from fst snd]. destruct tm. destruct W; unfold add_timers, spec_timers, count_w; cbn; f_equal; lia.
+  - cbn [wrun_from fst snd].
+    rewrite (spec_timers_cons W w h).
+    rewrite (surjective_pairing (fst (wstep W K iv fails (st, tm) w))), IH, wstep_timers.
+    rewrite add_timers_assoc. reflexivity.
+Qed.
+
+Lemma wrappers_transparent : forall W K iv last0 fails h, wellformed W h = true ->
+  snd (wrun W K iv last0 fails h) = snd (run K iv last0 fails (erase W h)) /\
+  fst (fst (wrun W K iv last0 fails h)) = fst (run K iv last0 fails (erase W h)) /\
+  snd (fst (wrun W K iv last0 fails h)) = spec_timers W h.
+Proof.
+  intros W K iv last0 fails h Hwf. unfold wrun, run.
+  destruct (wrun_from_erase W K iv fails h (init K last0) timers0 Hwf) as [E1 E2].
+  repeat split; [exact E2 | exact E1 |].
+  rewrite wrun_from_timers. unfold add_timers, timers0. cbn [t_reset t_start t_stop].
+  destruct (spec_timers W h); reflexivity.
+Qed.
